@@ -53,6 +53,7 @@ fn streams() -> Vec<(&'static str, GenFn, EvalFn)> {
         ("injtime", s_inj::gen_time, s_inj::eval_time),
         ("filter", s_filter::gen, s_filter::eval),
         ("filterx", s_filter::genx, s_filter::evalx),
+        ("joinnarrow", s_filter::gen_join, s_filter::eval_join),
         ("sqlx", s_sqlx::gen, s_sqlx::eval),
         ("sizes", s_sqlx::gen_sizes, s_sqlx::eval_sizes),
         ("c08x", s_sqlx::gen_c08x, s_sqlx::eval),
